@@ -5,6 +5,18 @@ from pathlib import Path
 VERIF = Path(__file__).resolve().parents[1]
 
 CHECKS = {
+    'C01': dict(
+        text='Theorems (Coq over Q, every block shape, values, pair of masks, odd kernel incl. h != w): OpenCV box sums with ksize '
+             '(kw, kh) of mask-zeroed arrays = sums over the jointly valid kh x kw window; gain = ratio of sums; gain-offset = OLS '
+             '(closed form, cov/var, RSS-minimal among all lines); gain-blk-offset = block-normalised ratio for every (a, b); '
+             'R2 = 1 - RSS/TSS of that window; the line passes through the window centroid for all three models and after ANY '
+             'in-painted offset; no parameters off the joint mask. Tie: Kernel.Fit.fit_px is evaluated in Coq (exact Q) on the blocks '
+             'the real KernelModel.fit was run on; float32 outputs must lie within a bound derived from the exact model values; '
+             'an independent explicit-loop definition oracle runs on the implementation output.',
+        note='float32 rounding is bounded, not proved; OpenCV box filters, np.std/percentile and fillnodata are modelled/observed '
+             '(theorems hold for every value fillnodata could return).',
+        technique='Coq proof (list-sum lemmas + field/lra over Q) + in-Coq correspondence (vm_compute, exact rationals) with KernelModel.fit',
+        design='5/C01'),
     'C06': dict(
         text='Theorems (Coq, unbounded in window, block shape, overlap): processing-grid output windows partition the processing '
              'window, input = output grown by overlap, other-grid output windows tile under one monotone corner map. The '
